@@ -104,12 +104,22 @@ func must(err error) {
 }
 
 // ---------- Gallina rendering ----------
-// bytes as one hexadecimal literal decoded in Coq by Base.C08_BE.be (far cheaper to parse than a list)
+// bytes as 8-byte hexadecimal words decoded in Coq by Model.C08.hb (far cheaper to parse than a list of bytes)
 func bB(b []byte) string {
 	if len(b) == 0 {
 		return "[]"
 	}
-	return fmt.Sprintf("(be %d%%nat 0x%x%%N)", len(b), b)
+	var ws []string
+	last := 8
+	for i := 0; i < len(b); i += 8 {
+		j := i + 8
+		if j > len(b) {
+			j = len(b)
+			last = j - i
+		}
+		ws = append(ws, fmt.Sprintf("0x%x%%N", b[i:j]))
+	}
+	return fmt.Sprintf("(hb [%s] %d)", strings.Join(ws, ";"), last)
 }
 func kB(s string) string { return bB([]byte(s)) }
 func entryT(e tsm1.IndexEntry) string {
